@@ -1,0 +1,43 @@
+//go:build verif
+
+// Contracts for package ammo (gRPC ammo and provider base), checked by /verif/govc. Comment-only: no code.
+package ammo
+
+//@ func (a *Ammo) Reset
+//@ props C20 C08
+//@ ensures [fields-as-given] a.Tag == tag && a.Call == call && a.Metadata == metadata && a.Payload == payload && a.id == 0 && !a.isInvalid
+//@ modifies a.Tag, a.Call, a.Metadata, a.Payload, a.id, a.isInvalid
+
+//@ func (a *Ammo) Invalidate
+//@ props C13 C20
+//@ ensures a.isInvalid
+//@ modifies a.isInvalid
+
+//@ func (a *Ammo) SetID
+//@ props C10
+//@ ensures a.id == id
+//@ modifies a.id
+
+//@ func (a *Ammo) IsInvalid
+//@ props C20
+//@ modifies nothing
+//@ ensures result == a.isInvalid
+
+//@ fieldfunc Provider.start
+//@ fieldfunc Provider.Close
+
+// Ids are successive values of one atomic counter; a closed sink is the end of ammo.
+//@ func (p *Provider) Acquire
+//@ props C08 C10
+//@ nilsafe
+//@ ensures [end-of-ammo-when-the-sink-is-closed] imp(!result_of(<-p.Sink, 1), !result1)
+//@ ensures [a-new-id-per-ammo] imp(result1, p.idCounter == old(p.idCounter) + 1 && result_of(<-p.Sink, 0).id == p.idCounter)
+
+// The sink is closed on every exit, so that consumers see the end of ammo.
+//@ func (p *Provider) Run
+//@ props C08
+//@ nilsafe
+//@ requires p.fs != nil && p.Sink != nil && !closed(p.Sink) && p.Close != nil && p.start != nil
+//@ ensures [sink-closed-on-every-exit] closed(old(p.Sink))
+//@ ensures [outcome-of-the-scan] imp(result_of(p.fs.Open, 1) == nil, result == result_of(p.start, 0))
+//@ at call p.start assert [same-context] arg(a0) == ctx0
